@@ -302,6 +302,7 @@ def harness_specs(tier):
         for d in ds:
             _group_of[d['name']] = name
         specs.append(dict(name=name, src=src, flavour='fast'))
+    specs.append(dict(name='h_c07k', src='h_c07k.cpp', flavour='fast'))      # explicit same-kind casting on narrow element types
     return specs
 
 
@@ -515,7 +516,31 @@ def case_for(rng, d, ts, ss, nums=(), kind='uf', params=None, tags=(), doms=None
     return Case(req, h, oracle=orc, mreq=mreq(kind, ss), cmp=make_cmp(rtol), nontrivial=nt, tags=tg)
 
 
+def gen_same_kind(tier, rng):
+    """add / subtract / multiply with casting::same_kind_t on narrow element types: the requested result type is the operands'
+    common element type, so values WRAP in it (NumPy: uint8 * uint8 -> uint8) and the element type of the view / eager
+    result is that type (seeded change C07-3 let C++ integer promotion leak: int result, no wrap)"""
+    NPT = {'u8': np.uint8, 'i8': np.int8, 'u16': np.uint16, 'i16': np.int16, 'i32': np.int32}
+    lim = {'u8': (0, 255), 'i8': (-128, 127), 'u16': (0, 65535), 'i16': (-32768, 32767), 'i32': (-1000, 1000)}
+    pairs = [([3], [3]), ([2, 3], [3]), ([2, 1], [1, 3]), ([4], [1])] if tier == 'quick' else [([3], [3]), ([2, 3], [3]), ([2, 1], [1, 3]), ([4], [1]), ([2, 2, 2], [2, 1]), ([1], [5])]
+    for et in ('u8', 'i8', 'u16', 'i16', 'i32'):
+        lo, hi = lim[et]
+        for sa, sb in pairs:
+            for op, f in (('add', np.add), ('subtract', np.subtract), ('multiply', np.multiply)):
+                for rep in range(2 if tier == 'quick' else 5):
+                    pick = lambda: rng.choice([hi, hi - 1, hi // 2 + 1, lo, lo + 1, rng.randint(lo, hi), 2, 3, 16])
+                    da = [pick() for _ in range(prod(sa))]; db = [pick() for _ in range(prod(sb))]
+                    with np.errstate(all='ignore'):
+                        r = f(np.array(da, dtype=NPT[et]).reshape(sa), np.array(db, dtype=NPT[et]).reshape(sb))
+                    assert r.dtype == NPT[et]
+                    api = ('view', 'array')[(rep + len(sa) + len(op)) % 2]
+                    yield Case('cast_uf op=%s et=%s api=%s a=%s b=%s da=%s db=%s' % (op, et, api, fmt(sa), fmt(sb), fmt(da), fmt(db)), 'h_c07k',
+                               oracle='ok shape=%s vals=%s type=ok' % (fmt(r.shape), fmt([int(x) for x in r.reshape(-1)])), model=False, nontrivial=True,
+                               tags=['same-kind-casting', 'op=' + op, 'et=' + et])
+
+
 def gen(tier, rng):
+    yield from gen_same_kind(tier, rng)
     for c in _gen(tier, rng):
         if isinstance(c, list):
             for x in c:
